@@ -104,7 +104,9 @@ func c17Gen(r *gen.Rng, tier string, idx int) interface{} {
 		switch r.Intn(6) {
 		case 0:
 			c.Corrupt = "missing-operand(delete identifier)"
-			if i := pickIdx(func(i int) bool { return !inBraces[i] && !isBinOp(toks[i]) && toks[i] != "^" && toks[i] != "(" && toks[i] != ")" }); i >= 0 {
+			if i := pickIdx(func(i int) bool {
+				return !inBraces[i] && !isBinOp(toks[i]) && toks[i] != "^" && toks[i] != "(" && toks[i] != ")"
+			}); i >= 0 {
 				del(i)
 			}
 		case 1:
